@@ -186,6 +186,8 @@ def extrude_along_axis(img: darsia.Image, height: float, num: int) -> darsia.Ima
     meta["space_dim"] = 3
     meta["dimensions"] = [height, *meta["dimensions"]]
     meta["indexing"] = "ijk"
-    meta["origin"] = [height, *meta["origin"]]
+    # NOTE: The origin uses Cartesian ordering (x, y, z). The extruded (z-)axis is
+    # reversed in matrix indexing, i.e., the voxel [0, 0, 0] is located at z = height.
+    meta["origin"] = [*meta["origin"], height]
 
     return type(img)(img=arr_3d, **meta)
